@@ -174,15 +174,29 @@ def addStaticReg (E : Env) (o : Id) (f : Fwd) (r : SReg) : Res SReg :=
   | none => .ok r
   | some ids => if E.lanelets = [] then .ok r else regStatic E o ids r
 
-/-- `_remove_static_obstacle_from_lanelets(id, ids)`: `if lanelet_ids is None: return`;
-    `l_ids = obs.initial_center_lanelet_ids; if l_ids is not None: for l_id in lanelet_ids: ….remove(obstacle_id)` -/
-def removeStaticReg (E : Env) (o : Id) (f : Fwd) (r : SReg) : Res SReg :=
-  match f.initShape with
-  | none => .ok r
-  | some ids =>
-    match f.initCenter with
-    | none => .ok r
-    | some _ => unregStatic E o ids r
+/-- `for l_id in …: lanelet = find_lanelet_by_id(l_id); if lanelet is not None: lanelet.static_obstacles_on_lanelet.discard(o)` -/
+def discardStatic (E : Env) (o : Id) : List Id → SReg → SReg
+  | [], r => r
+  | l :: ls, r => discardStatic E o ls (if l ∈ E.lanelets then sDel r l o else r)
+
+/-- `_remove_static_obstacle_from_lanelets(id, ids)` (scenario.py:778-790, after the repair 680e9aa): the obstacle is discarded
+    from the lanelets of its shape set AND of its centre set (`use_center_only=True` registers it there); nothing can raise -/
+def removeStaticReg (E : Env) (o : Id) (f : Fwd) (r : SReg) : SReg :=
+  discardStatic E o (f.initShape.getD [] ++ f.initCenter.getD []) r
+
+/-- `if lanelet is not None and time_step in lanelet.dynamic_obstacles_on_lanelet: ….discard(o)` over a set of lanelet ids -/
+def discardDyn (E : Env) (o : Id) (t : T) : List Id → DReg → DReg
+  | [], r => r
+  | l :: ls, r => discardDyn E o t ls (if l ∈ E.lanelets then dDel r l t o else r)
+
+def discardItems (E : Env) (o : Id) : Dict → DReg → DReg
+  | [], r => r
+  | (t, ids) :: d, r => discardItems E o d (discardDyn E o t ids r)
+
+/-- the centre part of `_remove_dynamic_obstacle_from_lanelets` (scenario.py:812-820): `prediction.center_lanelet_assignment`
+    (if there is a prediction with one) with the initial centre set merged in at the initial time step -/
+def unregCenter (E : Env) (o : Id) (f : Fwd) (r : DReg) : DReg :=
+  discardItems E o ((if E.kind o = Kind.dynTraj then f.predCenter.getD [] else []) ++ [(E.t0 o, f.initCenter.getD [])]) r
 
 /-- `_add_static_obstacle_to_lanelets(id, obstacle.initial_shape_lanelet_ids)` resp. `_add_dynamic_obstacle_to_lanelets(obstacle)` -/
 def addToLanelets (E : Env) (s : St) (o : Id) : Res St :=
@@ -203,15 +217,14 @@ def add (E : Env) (s : St) (o : Id) : Res St :=
 
 /-- `Scenario.remove_obstacle(obstacle)` with the obstacle object stored in the scenario. -/
 def remove (E : Env) (s : St) (o : Id) : Res St :=
-  if o ∈ s.statics then do
-    let r ← removeStaticReg E o (s.fwd o) s.sreg
-    pure { s with sreg := r, statics := s.statics.filter (· ≠ o) }
+  if o ∈ s.statics then
+    .ok { s with sreg := removeStaticReg E o (s.fwd o) s.sreg, statics := s.statics.filter (· ≠ o) }
   else if o ∈ s.dynamics then
     if E.kind o = Kind.dynSet ∨ E.lanelets = [] then .ok { s with dynamics := s.dynamics.filter (· ≠ o) }
     else do
       let r1 ← unregInit E o (s.fwd o) s.dreg
       let r2 ← unregPred E o (s.fwd o) r1
-      pure { s with dreg := r2, dynamics := s.dynamics.filter (· ≠ o) }
+      pure { s with dreg := unregCenter E o (s.fwd o) r2, dynamics := s.dynamics.filter (· ≠ o) }
   else .ok s        -- warning only
 
 /-! ### assign_obstacles_to_lanelets (scenario.py:1203-1295) -/
